@@ -85,6 +85,12 @@ def _pretty(o):
 def run(tier: str, seed: int) -> int:
     chk = Check("C11", tier, seed, "model_checking")
     chk.model_check("MC_Filter")
+    from .. import tlc
+
+    neg = tlc.run_tlc("MC_Filter", "MC_Filter_negative.cfg", workers=4, check_ok=False)
+    if neg.invariant_violated != "NoCaptureEitherWay":
+        raise tlc.MachineryError("negative control: selector matching without name spaces for generated names not refuted")
+    chk.coverage["negative_control"] = {"cfg": "MC_Filter_negative.cfg (generated names within reach of every pattern)", "refuted_invariant": neg.invariant_violated}
     cases = chk.generate("Gen_C11")
     obs = drive("harness.props.c11", "drive_case", cases, chunk=50)
     verdicts = chk.judge("Judge_C11", obs)
